@@ -95,6 +95,7 @@ from .errors import (
     HookError,
     NotGitRepository,
     ObjectFormatException,
+    RefFormatError,
     UnexpectedCommandError,
 )
 from .object_filters import (
@@ -1564,7 +1565,7 @@ class ReceivePackHandler(PackHandler):
                         ):
                             ref_status = b"stale info"
                             has_failure = True
-                    except KeyError:
+                    except (KeyError, RefFormatError):
                         ref_status = b"bad ref"
                         has_failure = True
 
@@ -1595,7 +1596,7 @@ class ReceivePackHandler(PackHandler):
                                 ref_status = b"stale info"
                         except all_exceptions:
                             ref_status = b"failed to write"
-                except KeyError:
+                except (KeyError, RefFormatError):
                     ref_status = b"bad ref"
                 yield (ref, ref_status)
         else:
@@ -1630,7 +1631,7 @@ class ReceivePackHandler(PackHandler):
                                 ref_status = b"stale info"
                         except all_exceptions:
                             ref_status = b"failed to write"
-                except KeyError:
+                except (KeyError, RefFormatError):
                     ref_status = b"bad ref"
                 yield (ref, ref_status)
 
